@@ -70,9 +70,10 @@ func SpecEofIdx(lines [][]byte, i int) int {
 //@   ensures kept: implies(len(lines) > 0, forall(0, len(r)-1, func(k int) bool { return r[k] == lines[k] }))
 //@   ensures last-empty: implies(len(lines) > 0, len(r[len(r)-1]) == 0)
 //@   ensures functional: r == SpecEofList(lines)
-//@   loop 0 invariant -1 <= i && i <= len(lines)-1 && eof == i
-//@   loop 0 invariant SpecEofIdx(lines, len(lines)-1) == SpecEofIdx(lines, i)
-//@   loop 0 decreases i + 1
+//@   loop 0 invariant -1 <= eof && eof <= len(lines)-1
+//@   loop 0 invariant SpecEofIdx(lines, len(lines)-1) == SpecEofIdx(lines, eof)
+//@   loop 0 invariant? counter: eof == i
+//@   loop 0 decreases eof + 1
 
 // File-level behaviour of renumber-tests for one file: never writes in check mode,
 // writes at most once and only the file it was given, writes exactly the renumbered
